@@ -13,7 +13,13 @@ use mc::survivor::*;
 use micromap::{Map, Set};
 use std::panic::{catch_unwind, AssertUnwindSafe};
 
-const PM: PMask = C04;
+/// The property the sweep reports under: C04, or - when the engine is run for C18 alone - C18, and then only the
+/// unsafe fast paths (`insert_unchecked`, `get_disjoint_unchecked_mut`, inside their contracts) are swept: within
+/// its precondition a fast path must uphold every other guarantee, exception safety included.
+static PMV: std::sync::atomic::AtomicU32 = std::sync::atomic::AtomicU32::new(C04);
+fn pm() -> PMask {
+    PMV.load(std::sync::atomic::Ordering::Relaxed)
+}
 
 /// Extra scenarios that are not part of the Map BFS alphabet.
 #[derive(Clone, Copy, Debug, PartialEq, Eq)]
@@ -57,7 +63,8 @@ enum XOp {
     CloneFrom { src: u8 },
     SetCloneFrom { src: u8 },
     /// `get_disjoint_mut` with the idx-th key tuple of length 2 or 3 over the universe (repeats included): a
-    /// comparison panics inside the overlap check or the scan; by key (`form` 0) or by the borrowed form (1)
+    /// comparison panics inside the overlap check or the scan; by key (`form` 0), by the borrowed form (1), or
+    /// through `get_disjoint_unchecked_mut` (2; only tuples of pairwise different keys - its contract)
     Disjoint { j: u8, idx: u16, form: u8 },
 }
 const N_HOW: u8 = 9;
@@ -142,7 +149,7 @@ fn xops(n: usize, nk: u8) -> Vec<XOp> {
     }
     for j in 2..=3u8 {
         for idx in 0..(nk as u16).pow(j as u32) {
-            for form in 0..2u8 {
+            for form in 0..3u8 {
                 v.push(XOp::Disjoint { j, idx, form });
             }
         }
@@ -265,6 +272,9 @@ fn sweep_state<const N: usize>(
                 continue;
             }
         }
+        if pm() == C18 && !matches!(op, mc::mapsys::MapOp::InsertUnchecked { .. }) {
+            continue;
+        }
         cx.here.op_idx = oi as u32;
         cx.here.op = op.to_string();
         crumb(&cx.here.op);
@@ -281,13 +291,13 @@ fn sweep_state<const N: usize>(
             };
             let (ticks, fired) = pl::disarm();
             let kinds = pl::tick_kinds();
-            flush_ledger(cx, PM, "during the call / the unwinding");
+            flush_ledger(cx, pm(), "during the call / the unwinding");
             drop(a);
             drop(side);
-            flush_ledger(cx, PM, "dropping the arguments and results the caller still holds");
+            flush_ledger(cx, pm(), "dropping the arguments and results the caller still holds");
             let _ = res;
             let built = b;
-            exercise_and_drop_map(built.bx, nk, cx, PM, true);
+            exercise_and_drop_map(built.bx, nk, cx, pm(), true);
             drop(built.probes);
             (ticks, fired, kinds)
         });
@@ -295,6 +305,9 @@ fn sweep_state<const N: usize>(
     // group B: clone, ==, bulk construction, consuming iterators, drop, and the Set API
     for (xi, x) in xs.iter().enumerate() {
         if matches!(x, XOp::FromArray { .. } | XOp::SetFromArray { .. }) && !path.is_empty() {
+            continue;
+        }
+        if pm() == C18 && !matches!(x, XOp::Disjoint { form: 2, .. }) {
             continue;
         }
         cx.here.op_idx = 100_000 + xi as u32;
@@ -338,9 +351,9 @@ fn run_x<const N: usize>(gsys: &MapSys<Kx, Vx, N>, path: &[u32], x: XOp, at: u32
             pl::arm(at);
             let r = catch_unwind(AssertUnwindSafe(|| m.clone()));
             (ticks, fired) = pl::disarm();
-            flush_ledger(cx, PM, "during clone / the unwinding");
+            flush_ledger(cx, pm(), "during clone / the unwinding");
             if let Ok(c) = r {
-                exercise_and_drop_map(Canary::boxed(c), nk, cx, PM, true);
+                exercise_and_drop_map(Canary::boxed(c), nk, cx, pm(), true);
             }
         }
         XOp::CloneSet => {
@@ -349,9 +362,9 @@ fn run_x<const N: usize>(gsys: &MapSys<Kx, Vx, N>, path: &[u32], x: XOp, at: u32
             pl::arm(at);
             let r = catch_unwind(AssertUnwindSafe(|| s.c.clone()));
             (ticks, fired) = pl::disarm();
-            flush_ledger(cx, PM, "during Set::clone / the unwinding");
+            flush_ledger(cx, pm(), "during Set::clone / the unwinding");
             if let Ok(c) = r {
-                exercise_and_drop_set(Canary::boxed(c), nk, cx, PM, true);
+                exercise_and_drop_set(Canary::boxed(c), nk, cx, pm(), true);
             }
             setbx = Some(s);
         }
@@ -374,12 +387,22 @@ fn run_x<const N: usize>(gsys: &MapSys<Kx, Vx, N>, path: &[u32], x: XOp, at: u32
             let ks: Vec<u8> = (0..j).map(|p| ((idx / (nk as u16).pow(p as u32)) % nk as u16) as u8).collect();
             let keys: Vec<Kx> = ks.iter().map(|k| Kx::new(*k, 1)).collect();
             let m = &mut mapbx.as_mut().unwrap().c;
+            let distinct = (0..ks.len()).all(|a| (0..a).all(|b| ks[a] != ks[b]));
+            if form == 2 && !distinct {
+                drop(keys);
+                return (0, None, Vec::new());
+            }
             pl::arm(at);
             let _ = catch_unwind(AssertUnwindSafe(|| {
                 // writes through whatever comes back: the references must be to live values of the map
                 macro_rules! go {
                     ($($i:expr),*) => {{
-                        if form == 0 {
+                        if form == 2 {
+                            // SAFETY: the requested keys are pairwise different (checked above): the documented contract
+                            for r in unsafe { m.get_disjoint_unchecked_mut([$(&keys[$i]),*]) }.into_iter().flatten() {
+                                r.set(0);
+                            }
+                        } else if form == 0 {
                             for r in m.get_disjoint_mut([$(&keys[$i]),*]).into_iter().flatten() {
                                 r.set(0);
                             }
@@ -442,7 +465,7 @@ fn run_x<const N: usize>(gsys: &MapSys<Kx, Vx, N>, path: &[u32], x: XOp, at: u32
                 }
             }));
             (ticks, fired) = pl::disarm();
-            flush_ledger(cx, PM, "during the consuming iteration / the unwinding");
+            flush_ledger(cx, pm(), "during the consuming iteration / the unwinding");
             drop(held_k);
             drop(held_v);
         }
@@ -453,9 +476,9 @@ fn run_x<const N: usize>(gsys: &MapSys<Kx, Vx, N>, path: &[u32], x: XOp, at: u32
             pl::arm(at);
             let r = catch_unwind(AssertUnwindSafe(|| src.collect::<Map<Kx, Vx, N>>()));
             (ticks, fired) = pl::disarm();
-            flush_ledger(cx, PM, "during collect / the unwinding");
+            flush_ledger(cx, pm(), "during collect / the unwinding");
             if let Ok(c) = r {
-                exercise_and_drop_map(Canary::boxed(c), nk, cx, PM, true);
+                exercise_and_drop_map(Canary::boxed(c), nk, cx, pm(), true);
             }
         }
         XOp::SetFromIter { dup, extra } => {
@@ -465,9 +488,9 @@ fn run_x<const N: usize>(gsys: &MapSys<Kx, Vx, N>, path: &[u32], x: XOp, at: u32
             pl::arm(at);
             let r = catch_unwind(AssertUnwindSafe(|| src.collect::<Set<Kx, N>>()));
             (ticks, fired) = pl::disarm();
-            flush_ledger(cx, PM, "during collect / the unwinding");
+            flush_ledger(cx, pm(), "during collect / the unwinding");
             if let Ok(c) = r {
-                exercise_and_drop_set(Canary::boxed(c), nk, cx, PM, true);
+                exercise_and_drop_set(Canary::boxed(c), nk, cx, pm(), true);
             }
         }
         XOp::SetExtend { dup, extra } => {
@@ -489,9 +512,9 @@ fn run_x<const N: usize>(gsys: &MapSys<Kx, Vx, N>, path: &[u32], x: XOp, at: u32
             pl::arm(at);
             let r = catch_unwind(AssertUnwindSafe(|| &s.c - &o));
             (ticks, fired) = pl::disarm();
-            flush_ledger(cx, PM, "during '-' / the unwinding");
+            flush_ledger(cx, pm(), "during '-' / the unwinding");
             if let Ok(c) = r {
-                exercise_and_drop_set(Canary::boxed(c), nk, cx, PM, true);
+                exercise_and_drop_set(Canary::boxed(c), nk, cx, pm(), true);
             }
             drop(o);
             setbx = Some(s);
@@ -521,7 +544,7 @@ fn run_x<const N: usize>(gsys: &MapSys<Kx, Vx, N>, path: &[u32], x: XOp, at: u32
                 }
             }));
             (ticks, fired) = pl::disarm();
-            flush_ledger(cx, PM, "during the call / the unwinding");
+            flush_ledger(cx, pm(), "during the call / the unwinding");
             drop(held);
             setbx = Some(s);
         }
@@ -568,7 +591,7 @@ fn run_x<const N: usize>(gsys: &MapSys<Kx, Vx, N>, path: &[u32], x: XOp, at: u32
                 drop(d);
             }));
             (ticks, fired) = pl::disarm();
-            flush_ledger(cx, PM, "during drain / the unwinding");
+            flush_ledger(cx, pm(), "during drain / the unwinding");
             drop(held);
             setbx = Some(s);
         }
@@ -588,7 +611,7 @@ fn run_x<const N: usize>(gsys: &MapSys<Kx, Vx, N>, path: &[u32], x: XOp, at: u32
                 drop(it);
             }));
             (ticks, fired) = pl::disarm();
-            flush_ledger(cx, PM, "during Set::into_iter / the unwinding");
+            flush_ledger(cx, pm(), "during Set::into_iter / the unwinding");
             drop(held);
         }
         XOp::SetAlgebra { other_mask, which } => {
@@ -678,7 +701,7 @@ fn run_x<const N: usize>(gsys: &MapSys<Kx, Vx, N>, path: &[u32], x: XOp, at: u32
                 (ticks, fired) = pl::disarm();
                 let _ = r;
             }
-            flush_ledger(cx, PM, "during the driven iteration / the unwinding");
+            flush_ledger(cx, pm(), "during the driven iteration / the unwinding");
             drop(hk);
             drop(hv);
         }
@@ -710,7 +733,7 @@ fn run_x<const N: usize>(gsys: &MapSys<Kx, Vx, N>, path: &[u32], x: XOp, at: u32
                 pl::arm(at);
                 let _ = catch_unwind(AssertUnwindSafe(|| m.clone_from(&o.c)));
                 (ticks, fired) = pl::disarm();
-                flush_ledger(cx, PM, "during clone_from / the unwinding");
+                flush_ledger(cx, pm(), "during clone_from / the unwinding");
                 other_map = Some(o);
             } else {
                 mapbx = None;
@@ -720,8 +743,8 @@ fn run_x<const N: usize>(gsys: &MapSys<Kx, Vx, N>, path: &[u32], x: XOp, at: u32
                 pl::arm(at);
                 let _ = catch_unwind(AssertUnwindSafe(|| d.c.clone_from(&o.c)));
                 (ticks, fired) = pl::disarm();
-                flush_ledger(cx, PM, "during Set::clone_from / the unwinding");
-                exercise_and_drop_set(o, nk, cx, PM, true);
+                flush_ledger(cx, pm(), "during Set::clone_from / the unwinding");
+                exercise_and_drop_set(o, nk, cx, pm(), true);
                 setbx = Some(d);
             }
         }
@@ -743,9 +766,9 @@ fn run_x<const N: usize>(gsys: &MapSys<Kx, Vx, N>, path: &[u32], x: XOp, at: u32
                 pl::arm(at);
                 let r = catch_unwind(AssertUnwindSafe(|| Map::<Kx, Vx, N>::from(arr)));
                 (ticks, fired) = pl::disarm();
-                flush_ledger(cx, PM, "during Map::from(array) / the unwinding");
+                flush_ledger(cx, pm(), "during Map::from(array) / the unwinding");
                 if let Ok(c) = r {
-                    exercise_and_drop_map(Canary::boxed(c), nk, cx, PM, true);
+                    exercise_and_drop_map(Canary::boxed(c), nk, cx, pm(), true);
                 }
             } else {
                 let mut items: Vec<Kx> = seq.iter().enumerate().map(|(p, k)| Kx::new(*k, (p % 2) as u8)).collect();
@@ -755,9 +778,9 @@ fn run_x<const N: usize>(gsys: &MapSys<Kx, Vx, N>, path: &[u32], x: XOp, at: u32
                 pl::arm(at);
                 let r = catch_unwind(AssertUnwindSafe(|| Set::<Kx, N>::from(arr)));
                 (ticks, fired) = pl::disarm();
-                flush_ledger(cx, PM, "during Set::from(array) / the unwinding");
+                flush_ledger(cx, pm(), "during Set::from(array) / the unwinding");
                 if let Ok(c) = r {
-                    exercise_and_drop_set(Canary::boxed(c), nk, cx, PM, true);
+                    exercise_and_drop_set(Canary::boxed(c), nk, cx, pm(), true);
                 }
             }
         }
@@ -773,18 +796,18 @@ fn run_x<const N: usize>(gsys: &MapSys<Kx, Vx, N>, path: &[u32], x: XOp, at: u32
         }
     }
     let kinds = pl::tick_kinds();
-    flush_ledger(cx, PM, "during the call / the unwinding");
+    flush_ledger(cx, pm(), "during the call / the unwinding");
     if let Some(m) = mapbx {
-        exercise_and_drop_map(m, nk, cx, PM, true);
+        exercise_and_drop_map(m, nk, cx, pm(), true);
     }
     if let Some(m) = other_map {
-        exercise_and_drop_map(m, nk, cx, PM, true);
+        exercise_and_drop_map(m, nk, cx, pm(), true);
     }
     if let Some(s) = setbx {
-        exercise_and_drop_set(s, nk, cx, PM, true);
+        exercise_and_drop_set(s, nk, cx, pm(), true);
     }
     drop(probes);
-    flush_ledger(cx, PM, "at the end of the run");
+    flush_ledger(cx, pm(), "at the end of the run");
     (ticks, fired, kinds)
 }
 
@@ -870,6 +893,9 @@ fn main() {
     silence_panics();
     install_crash_handler(args.get("crumb"));
     let mut rep = EngineReport::new("panic_mc", args.props());
+    if args.props() & C04 == 0 && args.props() & C18 != 0 {
+        PMV.store(C18, std::sync::atomic::Ordering::Relaxed);
+    }
     let ns = args.list_usize("n", &[1, 2, 3]);
     let nv = args.usize("v", 1) as u8;
     let threads = args.threads();
